@@ -491,7 +491,7 @@ pub fn run(ctx: &Ctx) -> i32 {
     report.assumptions = vec!["numbers are compared numerically (2 == 2.0); strings must be JSON strings, byte-identical".into()];
     replay_known(ctx, &stats, &mut report, &replay);
     replay_regressions(ctx, &stats, &mut report, &replay);
-    crate::props::c02::KNOWN_ID_REUSE.store(ctx.open_any("layout.segment_id_reuse"), std::sync::atomic::Ordering::Relaxed);
+    crate::props::c02::KNOWN_ID_REUSE.store(ctx.open_any("layout.stale_cache_after_id_reuse"), std::sync::atomic::Ordering::Relaxed);
     let cases = ctx.tier.pick(80, 2000);
     if let Some(f) = explore(ctx, "roundtrip", || case_strategy(ctx), Explore { cases, max_shrink_iters: ctx.tier.pick(80, 300), lanes: ctx.lanes }, &stats, run_case) {
         report.violations.push(f);
